@@ -19,9 +19,29 @@ def entries(ctx):
     es = []
     for tag, spec, exts, labels in hw.configs(ctx.quick, maxb=(2 if ctx.quick else 3)):
         es.append({"tag": tag, "yaml": B.to_yaml(spec), "mode": "metrics", "labels": labels})
+    es += offloop_sequencers()
     for fname, y in corpus.yaml_files():
         if "architecture" in y and "bindings" in y:
             es.append({"tag": "file:" + fname, "yaml": y, "mode": "metrics", "labels": [fname]})
+    return es
+
+
+def offloop_sequencers():
+    """a sequencer that ALSO names a rank that is no loop rank (the unpartitioned root of a partitioned loop rank, e.g. K
+    while the loops run K1/K0): the compiler accepts the binding and the dump consumes its iter trace, so the registration
+    must be there too (seed C12-8).  Built with hw.config, local to C12: the shared slices of hw.configs() do not shift."""
+    import copy
+    es = []
+    for base, out, root, levels in (("mm/shape", "Z", "K", ["K1", "K0"]), ("mm/occ", "Z", "K", ["K1", "K0"]),
+                                    ("mm/shapeM", "Z", "M", ["M1", "M0"]), ("mm3j", "Z", "J", ["J1", "J0"])):
+        for lv in ([levels[0]], [levels[1]]):   # the Sequencer has num_ranks 2
+            spec, _ = hw.config(base, {out: ["seq:" + lv[0]]})
+            spec = copy.deepcopy(spec)
+            for b in spec["bindings"][out]:
+                if b.get("component") == "Seq":
+                    b["bindings"] = [{"rank": root}] + [{"rank": r} for r in lv]
+            es.append({"tag": "%s|seqroot:%s+%s|cp" % (base, root, "+".join(lv)), "yaml": B.to_yaml(spec), "mode": "metrics",
+                       "labels": ["seqroot:" + root]})
     return es
 
 
